@@ -3723,7 +3723,16 @@ event_set_mem_functions(void *(*malloc_fn)(size_t sz),
 static void
 evthread_notify_drain_eventfd(evutil_socket_t fd, short what, void *arg)
 {
+	ev_uint64_t msg;
+	ev_ssize_t r;
 	struct event_base *base = arg;
+
+	/* Only an edge-triggered backend can leave the counter alone; poll
+	 * and select would report the descriptor readable for ever. */
+	r = read(fd, (void*) &msg, sizeof(msg));
+	if (r<0 && errno != EAGAIN) {
+		event_sock_warn(fd, "Error reading from eventfd");
+	}
 	EVBASE_ACQUIRE_LOCK(base, th_base_lock);
 	base->is_notify_pending = 0;
 	EVBASE_RELEASE_LOCK(base, th_base_lock);
